@@ -680,6 +680,14 @@ int main(int argc, char** argv) {
                         bool inside = tsrec && k >= pos + 4 && k < pos + 28;
                         if (!inside && bytes[k] != nb[k]) verdict = "FAIL gds-timestamp-rewrite byte outside a timestamp field changed";
                     }
+                    // the twelve words of the field: modification and access time, both the new date, big endian
+                    if (tsrec && len == 28 && pos + 28 <= nb.size()) {
+                        static const uint16_t want[6] = {1999, 1, 2, 3, 4, 5};
+                        for (int w = 0; w < 12; w++) {
+                            unsigned v = ((unsigned)nb[pos + 4 + 2 * w] << 8) | nb[pos + 5 + 2 * w];
+                            if (v != want[w % 6]) verdict = "FAIL gds-timestamp-rewrite word " + std::to_string(w) + " of a rewritten timestamp field is " + std::to_string(v) + ", not " + std::to_string(want[w % 6]);
+                        }
+                    }
                     pos += len;
                 }
                 std::string st2;
